@@ -502,6 +502,9 @@ func (p *Process) onProcessEnd(state string) {
 	if p.readyProber != nil {
 		p.readyCancelFn()
 	}
+	// release process_log_ready waiters: the ready line will not be printed any more
+	// (no effect if the line was already seen)
+	p.readyLogCancelFn(fmt.Errorf("process %s ended before its ready log line", p.getName()))
 	verifYieldP(p, "end.beforeState")
 	p.setState(state)
 	p.updateProcState()
